@@ -28,9 +28,24 @@ def needOf : String → Option AccessRight
   | "other" => some .other
   | _ => none
 
+/-- the user level: both rights, the one the request needs decides -/
+def perm2 (pl ps a need p : String) : String :=
+  match hexToUtf8Chars pl, hexToUtf8Chars ps, hexToUtf8Chars p, needOf need with
+  | some pl, some ps, some p, some nd =>
+    let admin := a = "1"
+    let cov := pl.all covered && ps.all covered && p.all covered
+    let model := implValidate cfg ⟨admin, pl, ps⟩ p nd
+    let spec := match nd with
+      | .pull => specFor cov pl admin p
+      | .push => specFor cov ps admin p
+      | .other => false
+    s!"model={boolStr model} spec={boolStr spec} cov={boolStr cov}"
+  | _, _, _, _ => "invalid-utf8"
+
 /--
 * `permit <right-hex> <admin 0|1> <path-hex>` → `model=<b> spec=<b> cov=<b>` (strings are UTF-8)
-* `perm2 <pull-hex> <push-hex> <admin> <pull|push|other> <path-hex>` → same, user level
+* `perm2 <pull-hex> <push-hex> <admin> <pull|push|other> <path-hex> [<route>]` → same, user level
+  (the route by which the harness builds the user is not the model's business)
 * `lowermap <utf8-hex>` → `out=<utf8-hex>` the model's `unicode.ToLower` applied to every character,
   `spec=<utf8-hex>` the specification's mapping, `cov=<0/1 per character>`
 * `spacemap <utf8-hex>` → `out=<0/1 per character>` the model's `unicode.IsSpace`, `spec=` the spec's
@@ -43,18 +58,8 @@ def handle : List String → String
       let cov := r.all covered && p.all covered
       s!"model={boolStr (implPermits cfg r admin p)} spec={boolStr (specFor cov r admin p)} cov={boolStr cov}"
     | _, _ => "invalid-utf8"
-  | ["perm2", pl, ps, a, need, p] =>
-    match hexToUtf8Chars pl, hexToUtf8Chars ps, hexToUtf8Chars p, needOf need with
-    | some pl, some ps, some p, some nd =>
-      let admin := a = "1"
-      let cov := pl.all covered && ps.all covered && p.all covered
-      let model := implValidate cfg ⟨admin, pl, ps⟩ p nd
-      let spec := match nd with
-        | .pull => specFor cov pl admin p
-        | .push => specFor cov ps admin p
-        | .other => false
-      s!"model={boolStr model} spec={boolStr spec} cov={boolStr cov}"
-    | _, _, _, _ => "invalid-utf8"
+  | ["perm2", pl, ps, a, need, p] => perm2 pl ps a need p
+  | ["perm2", pl, ps, a, need, p, _route] => perm2 pl ps a need p
   | ["lowermap", s] =>
     match hexToUtf8Chars s with
     | some cs =>
